@@ -134,7 +134,7 @@ static int features(const hg::Exchange &x) {
 }
 
 static void campaign() {
-    int cases = A.thorough() ? 20000 : 2000;
+    int cases = A.thorough() ? 40000 : 8000;
     hg::Opts o;
     rcx::run("parse_fidelity", vc::mix(A.seed * 193 + A.shard), cases, 50, [&]() -> std::optional<rcx::Fail> {
         hg::Exchange x = hg::gen_exchange(o);
